@@ -3,6 +3,10 @@
 # holds on its input, non-zero when the defect it documents is present. On the repaired tree all must pass.
 # (Run without a controlling terminal - `setsid -w witnesses/run_all.sh` - when stdin is a tty: delta asks the terminal
 # for its background colour unless --light/--dark is given.)
+if [ -z "$WITNESS_DETACHED" ] && command -v setsid >/dev/null; then
+  # detach from the controlling terminal first (see above): a witness that does not pass --dark would otherwise wait for the terminal's answer
+  exec env WITNESS_DETACHED=1 setsid -w bash "${BASH_SOURCE[0]}" "$@" < /dev/null
+fi
 DELTA=${1:-/repo/target/debug/delta}
 here=$(cd "$(dirname "${BASH_SOURCE[0]}")" && pwd)
 fail=0; n=0
